@@ -23,7 +23,7 @@ pub const SENTINEL: i32 = 9_999_999;
 pub struct SearchRun {
     pub report: Report,
     pub panic: Option<String>,
-    pub table_after: Vec<(u64, u8)>,
+    pub table_after: Vec<(u64, u32)>,
     /// boards that actually went through the channel, in order
     pub sent: Vec<BoardState>,
 }
@@ -31,8 +31,9 @@ pub struct SearchRun {
 /// Every entry of the record, zero counts included: "left exactly as it was given" is taken
 /// literally (entries that stay behind with a zero count are invisible to the readers, which use
 /// unwrap_or(&0), but they are not the record that was given and they accumulate - see D15).
-pub fn table_entries(dt: &DrawTable) -> Vec<(u64, u8)> {
-    let mut v: Vec<(u64, u8)> = dt.table.iter().map(|(k, c)| (*k, *c)).collect();
+pub fn table_entries(dt: &DrawTable) -> Vec<(u64, u32)> {
+    // `.into()`: the engine's counter type is its own business (u8 at the pinned commit)
+    let mut v: Vec<(u64, u32)> = dt.table.iter().map(|(k, c)| (*k, (*c).into())).collect();
     v.sort_unstable();
     v
 }
